@@ -39,7 +39,8 @@ LEVEL_TEXT = (
     "internal nodes with children first, the dfs traversal is the post-order; get_path = ssa_to_linear of "
     "get_ssa_path; from_path of the emitted path re-creates exactly the tree's intermediates for every "
     "children-first traversal; edge_path_to_ssa on any duplicate-free index sequence equals the leaf-set "
-    "definition (contract all current tensors carrying the index) and is a valid SSA path.  Tied to /repo on every run by equality correspondence of all converter "
+    "definition (contract all current tensors carrying the index) and is a valid SSA path, and from_path(edge_path=...) "
+    "builds exactly the tree of that path whatever the output is (from_edge_path_eq).  Tied to /repo on every run by equality correspondence of all converter "
     "outputs and of get_path/get_ssa_path recomputed from the real traversal, and by a verified "
     "children-first certificate checker run on the real traversal; an implementation-only oracle checks "
     "round trips, validity and the edge-path semantics against an independent leaf-set simulation.")
